@@ -92,7 +92,7 @@ URL_IN_HTML_RE = re.compile(URL_IN_HTML, re.I | re.A)
 URL_IN_HTML_BINARY_RE = re.compile(URL_IN_HTML_BINARY, re.I)
 
 QUERY_VALUE_IN_URL_TEMPLATE = r"(?:^|[?&])(%s)=([^&]+)"
-QUERY_VALUE_TEMPLATE = r"%s=([^&]+)"
+QUERY_VALUE_TEMPLATE = r"%s=([^&#]+)"
 
 # NOTE: the userinfo cannot contain "/", "?" or "#" and the host ends at the
 # first ":", "/", "?" or "#" (%s must therefore not match those either), a ":"
